@@ -90,6 +90,10 @@ def rules(text):
                 continue
             if re.match(r'^\s*(if|else)\b.*\{\s*$', code):
                 stack.append('?cond'); continue
+            if re.match(r'^\s*[@$]\{?[A-Za-z0-9_]+\}?\s*\+?=', code):
+                # variable definition: one line, no terminating comma
+                out.append(Rule(ln, '//'.join(stack), code.strip(), com.strip(), len(code) - len(code.lstrip())))
+                continue
             cur = {'ln': ln, 'parts': [], 'indent': len(code) - len(code.lstrip())}
             depth = 0; q = False
         depth, q, end = _depth_scan(code, depth, q)
